@@ -40,6 +40,9 @@ Inductive res :=
 | RVal (o : option Z)      (* Get: Some v = (v, true); None = (zero, false) *)
 | RNat (n : nat).
 
+(* the specification state: a finite map from key to (value, expireAt) *)
+Notation spec := (gmap key (Z * Z)).
+
 Section TTL.
   Variable ttl : Z.
 
@@ -153,8 +156,6 @@ Section TTL.
 
   (* ---------------------------------------------------------------- the specification *)
 
-  (* a finite map from key to (value, expireAt) *)
-  Definition spec := gmap key (Z * Z).
 
   Definition spec_step (now : Z) (o : op) (m : spec) : spec :=
     match o with
